@@ -385,7 +385,8 @@ def uniform(data: ttb.tensor, samples: int) -> sample_type:
     subs = np.floor(
         np.random.uniform(0, 1, (samples, data.ndims)) * np.array(data.shape),
     ).astype(int)
-    vals = data[subs]
+    # One value per sample (a sparse tensor hands back a column, a single sample a scalar)
+    vals = np.asarray(data[subs], dtype=float).reshape(-1)
     wgts = (np.prod(data.shape) / samples) * np.ones((samples,))
     return subs, vals, wgts
 
